@@ -27,7 +27,7 @@ class TLCResult:
 
 
 def java_cmd(main, *args, heap='8g', props=()):
-    lib = os.pathsep.join([os.path.join(SPEC, 'common')])
+    lib = os.pathsep.join(sorted(os.path.join(SPEC, d) for d in os.listdir(SPEC) if os.path.isdir(os.path.join(SPEC, d))))
     return ['java', '-XX:+UseParallelGC', '-Xss512m', '-Xmx' + heap, '-DTLA-Library=' + lib,
             *['-D' + p for p in props], '-cp', JAR, main, *args]
 
